@@ -1,0 +1,14 @@
+//go:build verif
+// +build verif
+
+package syslog
+
+import "net"
+
+// VC18SetConn replaces the connection the logger holds (verification build only: lets the C18 harness put the
+// real logger on a scripted in-memory connection). The previous connection is returned, not closed.
+func (l *Logger) VC18SetConn(c net.Conn) net.Conn {
+	old := l.conn
+	l.conn = c
+	return old
+}
